@@ -411,8 +411,15 @@ example : InFlight.indexOkB { objs := fun _ => { pri := 0, index := 0, client :=
 
 /-! ## deadlock freedom (lock part) -/
 
-/-- no set of goroutines can wait for each other in a cycle purely on the mutexes of nsqd/:
-the lock-nesting relation regenerated from the current tree is acyclic -/
+/-- no set of goroutines can wait for each other in a cycle purely on the mutexes of nsqd/: the lock-nesting relation
+regenerated from the current tree is acyclic.
+Audit B22 — what this is and is not: a GRAPH fact (`no_deadlock_cycle` holds for any acyclic relation, the empty one included).
+It says something about the tree only through the ties: `Tie.Life.lock_order_acyclic` (`decide` on the regenerated relation),
+`must_hold_edges` (the nestings the models rely on ARE in the relation — deleting an acquisition would otherwise just shrink it),
+`unresolved_calls_pinned` (the 8 call sites through function-typed fields that the extractor cannot follow: pinned, reviewed by
+hand, a new one breaks the tie) and `no_recursive_lock` (no lock is re-acquired while held).  There is no "lift" to an
+operational semantics of goroutines: "a goroutine waits for B while holding A ⇒ (A, B) is in the relation" is the extractor's
+specification (trusted; conservative approximations listed in tools/go2lean/kind_life.go). -/
 theorem lock_only_deadlock_free (hs : List String) :
     ¬ LifeLock.DeadlockCycle Nsq.Gen.Life.lockEdges hs :=
   Nsq.Proofs.LifeLock.no_deadlock_cycle Nsq.Tie.Life.lock_order_acyclic hs
